@@ -12,7 +12,7 @@
      same a b    := forall x, In x a <-> In x b                                         (equal as sets) *)
 From Coq Require Import String List Bool Arith.
 From V Require Import Model.Universe Model.Group Model.GroupX Gen.Universes Gen.GroupGen.
-From V Require Import Proofs.GroupProofs Proofs.GroupProofsShipped Proofs.GroupProofsX Proofs.GroupProofsX2 Proofs.GroupProofsX3 Proofs.GroupProofsXShipped Proofs.GroupProofsXS Proofs.GroupProofsXS5.
+From V Require Import Proofs.GroupProofs Proofs.GroupProofsShipped Proofs.GroupProofsX Proofs.GroupProofsX2 Proofs.GroupProofsX3 Proofs.GroupProofsXShipped Proofs.GroupProofsXS Proofs.GroupProofsXS0 Proofs.GroupProofsXS1.
 Import ListNotations.
 Open Scope string_scope.
 Open Scope list_scope.
@@ -303,16 +303,25 @@ Theorem isolated_dimension_extends : forall u s l G, wf_universe u = true -> iso
 Proof. exact isolated_extends. Qed.
 Print Assumptions isolated_dimension_extends.
 
-(* lookup_order with ONE skypix dimension: for EVERY skypix dimension of the current universe (41 today) and EVERY
-   subset of its non-skypix dimensions (2^13 today; bound as in lookup_order_bound) lookup_order returns, is a
-   permutation of the elements, lists every element after its required dimensions and every implied dimension after
-   some member that implies it.  Decided on the closed sets (460 today) x the skypix dimensions; the reduction from an
-   arbitrary subset to its closure is generic (mkgroup_cons_closure). *)
-Theorem lookup_order_ok_current_one_skypix : forall s S,
-  In s (skypix_names u_current) -> In S (all_subsets (nonskypix_dimension_names u_current)) ->
-  exists g, mkgroup u_current (s :: S) = GOk g /\ lookup_okb u_current g = true.
-Proof. exact one_skypix_p. Qed.
-Print Assumptions lookup_order_ok_current_one_skypix.
+(* lookup_order with ONE skypix dimension next to non-skypix dimensions (finite, by computation): for each skypix
+   dimension at either end of a pixelization system of the current universe (`sky_sample_current`: lowest / highest
+   level -- healpix1, healpix17, htm1, htm24 today) and each CLOSED set C of non-skypix dimensions (`cl_current`, 460
+   today), the group of s :: C has a lookup_order that returns, is a permutation of the elements and respects the
+   required / implied order.  `closures_tabulated` (every subset's closure is one of those closed sets) and
+   `group_cons_closure` (generic: s :: S and s :: closure S give the same group) carry this to every subset S. *)
+Theorem lookup_order_ok_current_skypix_ends : skypix_lookup_okb u_current sky_sample_current cl_current = true.
+Proof. exact skypix_lookup_sample. Qed.
+Print Assumptions lookup_order_ok_current_skypix_ends.
+
+Theorem closures_tabulated : forall S, In S (all_subsets (nonskypix_dimension_names u_current)) ->
+  closure_in u_current cl_current S = true.
+Proof. exact closures_tabulated_p. Qed.
+Print Assumptions closures_tabulated.
+
+Theorem group_cons_closure : forall u s l C, wf_universe u = true -> In s (names_of u) -> closure u l = GOk C ->
+  mkgroup u (s :: l) = mkgroup u (s :: C).
+Proof. exact mkgroup_cons_closure. Qed.
+Print Assumptions group_cons_closure.
 
 (* ---- non-vacuity: the hypotheses are satisfiable by the real universe and a real group ---- *)
 Example wf_current : wf_universe u_current = true.
